@@ -58,6 +58,7 @@ type Contract struct {
 	Ensures  []*Clause
 	PanicsIf []*Clause
 	Lets     []LetDef
+	Anys     [][2]string // name, type: arbitrary fixed values (universally quantified contract variables)
 	Modifies []ModTarget
 	HasMod   bool
 	Loops    map[int]*LoopContract
@@ -104,7 +105,7 @@ type ContractSet struct {
 	Assumes   []string // textual list of assumed contracts (for evidence)
 }
 
-var keywordRe = regexp.MustCompile(`^(package|opaque|func|fieldfunc|assume|lemma|ghost|pred|spec|requires|ensures|modifies|panics_if|let|loop|invariant|free_invariant|decreases|exit_assert|props|encoder|nopanic|may_panic|return_assert|cover|bounded|assert|opt)\b`)
+var keywordRe = regexp.MustCompile(`^(package|opaque|any|func|fieldfunc|assume|lemma|ghost|pred|spec|requires|ensures|modifies|panics_if|let|loop|invariant|free_invariant|decreases|exit_assert|props|encoder|nopanic|may_panic|return_assert|cover|bounded|assert|opt)\b`)
 
 // readContractFile extracts //@ lines and parses them.
 func (cs *ContractSet) readContractFile(path, pkgPath string) error {
@@ -252,6 +253,16 @@ func (cs *ContractSet) readContractFile(path, pkgPath string) error {
 					return err
 				}
 				cur.PanicsIf = append(cur.PanicsIf, c)
+			case "any":
+				// any x uint16, y int: arbitrary but fixed values; a clause over them
+				// holds for every value (quantifier-free universal statement)
+				for _, part := range splitTop(rest, ',') {
+					fs := strings.Fields(part)
+					if len(fs) != 2 {
+						return fmt.Errorf("%s:%d: bad any declaration %q", path, l.n, part)
+					}
+					cur.Anys = append(cur.Anys, [2]string{fs[0], fs[1]})
+				}
 			case "let":
 				for _, part := range splitTop(rest, ';') {
 					k := strings.Index(part, "=")
